@@ -9,6 +9,7 @@ import Scico.Proofs.DriverCtl
 import Scico.Proofs.DriverMore
 import Scico.Proofs.DriverDisp
 import Scico.Proofs.DriverClock
+import Scico.Proofs.DriverRaise
 
 namespace Scico.Props.C15
 open Scico.Driver Scico.Driver.Spec
@@ -479,6 +480,37 @@ theorem C15_after_nanstop (E : Env ω ρ ξ α) (cb : Option (Callback ω)) (d :
     simp only [tick_timer, tick_clock, this]
     omega
 
+/-- **A callback that raises.**  If the callback raises an exception during its invocation in
+    iteration `j` of the call (having changed the state by an arbitrary `pr` and taken `pt` ticks),
+    and no earlier iteration nor iteration `j` trips the NaN stop: the exception leaves `solve`
+    with the counter at `itnum + j`, the records of iterations `0..j` (the record of iteration `j`
+    was made before the callback), `j + 1` callback invocations, and the stop-watch **stopped**
+    — it reads the time at the call plus the durations of the steps `0..j` at every later moment:
+    neither the time spent in the failing callback nor any pause afterwards is counted (unlike
+    after a NaN stop, `C15_after_nanstop`) — and the object is `Ready` for the next call. -/
+theorem C15_callback_raises (E : Env ω ρ ξ α) (c : Callback ω) (pr : ω → ω) (pt : ω → Nat) (d : Drv ω ρ L)
+    (hr : Ready d) (j : Nat) (hj : j < d.maxiter.toNat)
+    (hn : ∀ k ≤ j, ¬ tripsAt E (some c) d.world d.nanstop k) (g : Nat) :
+    let r := (solveRaise E c pr pt d j).1
+    (solveRaise E c pr pt d j).2 = none ∧ r.world = pr (afterStep E (some c) d.world j) ∧
+      r.itnum = d.itnum + (j : Int) ∧
+      r.rows = d.rows ++ (List.range (j + 1)).map
+        (specRow E (some c) d.world d.itnum (d.timer.elapsedDefault true d.clock)) ∧
+      r.cblog.length = d.cblog.length + (j + 1) ∧
+      (r.tick g).timer.elapsedDefault true (r.tick g).clock =
+        d.timer.elapsedDefault true d.clock + stepTime E (some c) d.world (j + 1) ∧
+      Ready (r.tick g) := by
+  have hb : ∀ k ≤ j, tripsB E d.nanstop (afterStep E (some c) d.world k) = false := by
+    intro k hk
+    have := hn k hk
+    rw [← tripsB_iff] at this
+    simpa using this
+  obtain ⟨h1, h2, h3, h4, h5, _, h7⟩ := solveRaise_spec E c pr pt d hr.labels hr.past j hj hb
+  refine ⟨h1, h2, h3, h4, h5, h7.read _, ⟨?_, h7.wf _⟩⟩
+  show (solveRaise E c pr pt d j).1.timer.dflt ≠ (solveRaise E c pr pt d j).1.timer.all
+  rw [h7.1, h7.2.1]
+  exact hr.labels
+
 /-- **…and not before, and never otherwise.**  `solve()` raises the NaN-stop exception iff some
     iteration of the call trips the test; it never ends in any other exception (in particular the
     timer calls inside `solve` cannot raise `KeyError`). -/
@@ -673,6 +705,13 @@ example :
     let d1 := (solve exEnv (some exCb) exDrv).1
     let r := (solve exEnv none d1).1.tick 9
     r.itnum = 5 ∧ r.timer.elapsedDefault true r.clock = 6 + 4 + 9 := by decide
+
+-- the callback raises in the second iteration (j = 1) after 40 of its ticks: records 2 and 3 exist, the
+-- counter shows 3, and 50 ticks later the stop-watch still reads the 1 + 2 ticks of the two steps
+example :
+    let r := solveRaise exEnv exCb id (fun _ => 40) exDrv 1
+    r.2 = none ∧ r.1.rows.map (·.iter) = [2, 3] ∧ r.1.itnum = 3 ∧
+      (r.1.tick 50).timer.elapsedDefault true (r.1.tick 50).clock = 3 := by decide
 
 /-- a callback that asks for "no further iterations" by `optimizer.maxiter = 0` -/
 def exCbStop : CallbackX Nat := { run := id, ticks := fun _ => 1, ctl := fun _ i _ => (i, 0) }
